@@ -585,6 +585,22 @@ def check_case(case):
   require(got_code == exp_code, 'markdown-altered-binding-lines',
           lambda: f'--- config_str:\n{s1}\n--- markdown:\n{md}')
 
+  # ---- the text follows a later change (nothing is cached) -----------------------------------
+  bind_items = [it for it in items if it[0] == 'bind']
+  if bind_items:
+    gin.clear_config()
+    apply(items, order)
+    first = gin.config_str(width, indent)
+    scope, sel, param = bind_items[0][1]
+    gin.bind_parameter((scope, sel, param), 'changed-afterwards')
+    second = gin.config_str(width, indent)
+    require("'changed-afterwards'" in second and first != second, 'config_str-stale-after-change',
+            lambda: f'--- before:\n{first}\n--- after re-binding {scope}/{sel}.{param}:\n{second}')
+    gin.clear_config()
+    gin.parse_config(second)
+    got = gin.query_parameter(f"{scope + '/' if scope else ''}{sel}.{param}")
+    require(got == 'changed-afterwards', 'config_str-stale-after-change', repr(got))
+
   # ---- classification -----------------------------------------------------------------------
   wraps = '\\\n' in s1
   vals = [v for kind, _, v, _ in items if kind != 'import']
